@@ -197,6 +197,8 @@ def pipeline_cases(ctx, tab):
             year = 2004 if fmt.startswith("klm") else 2000
             doy = 366
         start = ydm_to_ms(year, doy, rng.randint(0, 86000000 - 20000))
+        if k in (2, 3) or (k >= 0 and k % 7 == 6):
+            start = ydm_to_ms(year, 1 if k == 2 else doy, 0)       # the first line at exactly 00:00:00.000 (k = 2: on 1 January)
         tp = timesgen.TimePass(fmt, list(range(1, n + 1)), start)
         b = tp.build(ctx, rng)
         if fmt.startswith("klm"):
